@@ -271,6 +271,9 @@ def run(ctx):
                           {'cfg': cfg}, {'what': 'history', 'fn': 'reconstruct'})
 
 
+    __import__('harness.props.genobjects', fromlist=['x']).check_propagator_object(ctx)   # regenerated propagator OBJECT vs /repo (work package 13)
+
+
 def shrink(cfg, ap, ops, bad):
     """smallest subsequence ending in ops[bad] that still differs from a fresh object"""
     target = ops[bad]
